@@ -139,6 +139,11 @@ int main() {
       }
     }
     size_t before = a.offset();
+    // frame: the (up to 256) bytes in front of the instruction must not change -- an emitter that patches back (address-size override
+    // inserted at a mark, REX removal of lea) must not reach into earlier instructions; neither on success nor on refusal
+    uint8_t front[256];
+    size_t nfront = before < sizeof front ? before : sizeof front;
+    memcpy(front, cx.code.text_section()->buffer().data() + (before - nfront), nfront);
     a.set_inst_options(InstOptions(uint32_t(strtoul(opt.c_str(), nullptr, 16))));
     if (extra != "-") {
       long cls = 0, rid = 0; sscanf(extra.c_str(), "%ld:%ld", &cls, &rid);
@@ -152,6 +157,7 @@ int main() {
     }
     // no manual reset of options / extra register here: resetting the one-shot state is the emitter's job (also when it fails)
     size_t after = a.offset();
+    if (memcmp(front, cx.code.text_section()->buffer().data() + (before - nfront), nfront) != 0) { printf("DIRTY-FRONT %u\n", unsigned(err)); continue; }
     if (err != Error::kOk) { printf("ERR %u %zu\n", unsigned(err), after - before); continue; }
     const uint8_t* p = cx.code.text_section()->buffer().data();
     std::string out = "OK ";
